@@ -29,24 +29,43 @@
 (***************************************************************************)
 EXTENDS Naturals, TLC
 
-CONSTANTS Cap,        \* capacity of the wake-up channel (64 in go-imap; small here: only its relation to the burst matters)
-          MaxBurst,   \* largest number of messages one command changes
-          Blocking,   \* design variant
-          Clients     \* behaviours of the idling session's client to consider
+CONSTANTS
+  \* @type: Int;
+  Cap,        \* capacity of the wake-up channel (64 in go-imap; small here: only its relation to the burst matters)
+  \* @type: Int;
+  MaxBurst,   \* largest number of messages one command changes
+  \* @type: Bool;
+  Blocking,   \* design variant
+  \* @type: Set(Str);
+  Clients     \* behaviours of the idling session's client to consider
 
-VARIABLES client,  \* "reads" | "stalls" | "done" | "drops"  (chosen in Init)
-          burst,   \* number of messages the producer's command changes (chosen in Init)
-          m,       \* holder of the mailbox lock: "none" | "prod" | "other"
-          ppc,     \* producer: "start" | "queue" | "notify" | "done"
-          sent,    \* updates appended so far
-          cap,     \* the producer saw a registered channel when it appended the last update
-          reg,     \* a wake-up channel is registered (SessionTracker.updates # nil)
-          ch,      \* notifications in the channel
-          q,       \* updates in the idling session's queue
-          cons,    \* consumer: "select" | "poll" | "write" | "blocked" | "gone"
-          batch,   \* updates the consumer is writing
-          seen,    \* updates that reached the idling client
-          opc      \* other command: "start" | "hold" | "done"
+VARIABLES
+  \* @type: Str;
+  client,  \* "reads" | "stalls" | "done" | "drops"  (chosen in Init)
+  \* @type: Int;
+  burst,   \* number of messages the producer's command changes (chosen in Init)
+  \* @type: Str;
+  m,       \* holder of the mailbox lock: "none" | "prod" | "other"
+  \* @type: Str;
+  ppc,     \* producer: "start" | "queue" | "notify" | "done"
+  \* @type: Int;
+  sent,    \* updates appended so far
+  \* @type: Bool;
+  cap,     \* the producer saw a registered channel when it appended the last update
+  \* @type: Bool;
+  reg,     \* a wake-up channel is registered (SessionTracker.updates # nil)
+  \* @type: Int;
+  ch,      \* notifications in the channel
+  \* @type: Int;
+  q,       \* updates in the idling session's queue
+  \* @type: Str;
+  cons,    \* consumer: "select" | "poll" | "write" | "blocked" | "gone"
+  \* @type: Int;
+  batch,   \* updates the consumer is writing
+  \* @type: Int;
+  seen,    \* updates that reached the idling client
+  \* @type: Str;
+  opc      \* other command: "start" | "hold" | "done"
 
 vars == <<client, burst, m, ppc, sent, cap, reg, ch, q, cons, batch, seen, opc>>
 
